@@ -26,7 +26,7 @@ m = dict(
     setup_cmd='./setup.sh',
     hooks=dict(guard='rivia_verif', enable='RUSTFLAGS="--cfg rivia_verif" (set in /verif/harness/.cargo/config.toml; the harness depends on /repo by path)',
                baseline_off_cmd='cd /repo && cargo test --workspace --no-fail-fast --offline',
-               source_commits=['de3320b', 'HEAD~0 (verif hooks: detached entry constructor)'], add_only=True),
+               source_commits=['8f42476', 'c605caa', 'de3320b'], add_only=True),
     engines=[dict(name='lean4-proof+correspondence', path='/verif/lean + /verif/harness + /verif/check', serves_properties=sorted(CLAIMED),
                   kind_free_text='Lean 4 theorems about a hand-written executable model of the Rust code; Rust harness runs the real code, Lean driver runs the model and the specification on the same request lines; Python orchestrates, audits axioms, writes evidence')],
     checks=checks,
